@@ -11,7 +11,7 @@ The model (`Model/HostMap.lean`) follows the Go code after the F08 `fix:` commit
 `Lemmas/HostMapInv.lean`; operations are the entry points the rest of nebula uses (`Op`), with *any* tunnel id as
 argument, so stale deletes / promotions / relay requests are part of every history.
 -/
-import Nebula.Lemmas.HostMapOracle
+import Nebula.Lemmas.HostMapStep
 
 namespace Nebula.Props.C28
 open Nebula.HostMap Nebula.HostMap.FMap
@@ -181,6 +181,16 @@ theorem invCheck_iff_Inv (s : State) : Nebula.Spec.HostMap.invCheck s = none ↔
 theorem stepCheck_iff_Step (pre post : State) (fresh : List Nat) :
     Nebula.Spec.HostMap.stepCheck pre post fresh = none ↔ Step pre post fresh :=
   Nebula.HostMap.stepCheck_iff_Step pre post fresh
+
+/-- every operation of the model, from every state satisfying the invariant, satisfies the step relation: no tunnel
+enters the main hostmap except the one being completed, and index / relay index / pending index / remote index entries
+disappear only together with their tunnel (or, for remote indexes, are shadowed by the new tunnel) -/
+theorem step_all_ops (s : State) (i : Inv s) (op : Op) : Step s (applyOp s op) (freshOf s op) := applyOp_step i op
+
+/-- hence the transition oracle never fires on the model -/
+theorem stepCheck_silent_on_model (ops : List Op) (op : Op) :
+    Nebula.Spec.HostMap.stepCheck (run {} ops) (applyOp (run {} ops) op) (freshOf (run {} ops) op) = none :=
+  Nebula.HostMap.stepCheck_silent_on_model (inv_all_histories ops) op
 
 /-- hence the oracle never fires on the model, whatever the history -/
 theorem oracle_silent_on_model (ops : List Op) : Nebula.Spec.HostMap.invCheck (run {} ops) = none :=
